@@ -10,7 +10,8 @@ from sa.tables import OPTS
 
 # property -> [(module suffix, class or None, names or None (= every non-stub function / method))]
 PLAN = {
-    "C13": [("core.infrastructure", "ShapedTensor", None), ("core.infrastructure", "RecordTensor", ["dt:setter", "duration:setter", "inclusive:setter", "reconstrain", "constraints:getter", "recordsz:getter"])],
+    "C11": [("core.tensor", None, None), ("functional.dimreductiion", None, None)],
+    "C13": [("core.infrastructure", "VirtualTensor", None), ("core.infrastructure", "ShapedTensor", None), ("core.infrastructure", "RecordTensor", ["dt:setter", "duration:setter", "inclusive:setter", "reconstrain", "constraints:getter", "recordsz:getter"])],
     "C01": [("core.infrastructure", "RecordTensor", None), ("core.infrastructure", None, ["_unwind_ptr", "_unwind_tensor_ptr"])],
     "C03": [("neural.neurons.linear", c, None) for c in ("LIF", "ALIF", "GLIF1", "GLIF2")] +
            [("neural.neurons.nonlinear", c, None) for c in ("QIF", "Izhikevich", "EIF", "AdEx")] +
@@ -54,7 +55,7 @@ import signal
 
 
 def _alarm(sig, frm):
-    raise KeyboardInterrupt("summary took more than 25 s")
+    raise KeyboardInterrupt("summary took more than 120 s")
 
 
 signal.signal(signal.SIGALRM, _alarm)
@@ -109,7 +110,7 @@ for prop, plan in PLAN.items():
                 node.args.kwarg.annotation = None
             src = ast.unparse(node) + "\n"
             try:
-                signal.alarm(25)
+                signal.alarm(120)
                 terms.function_term(P, f, None, **OPTS)      # raises Opaque when the function is outside the fragment
                 ok = specs.equivalent(P, f, src, **OPTS)
                 signal.alarm(0)
